@@ -26,6 +26,7 @@ CONSTANTS
  NodeTeardown = TRUE
  MayVanish = TRUE
  SweepRelays = FALSE
+ TestCells = FALSE
  E2E = FALSE
  Aead = TRUE
  CheckIdent = TRUE
